@@ -170,4 +170,32 @@ bits (`m = 10^6` has 6 trailing zero bits) has 91 barriers in 18 words and fails
 example : kOf 128 1000000 = 149 ∧ paramsOK 8 128 1000000 319 100 20 95 160 = true ∧
     paramsOK 8 128 1000000 319 100 18 91 144 = false := by decide
 
+/-! ### the output type `out_class` (`FastGaussianNoise<in_class, out_class, depth>`; the library uses the polynomial's
+`value_type` = `uint16_t` / `uint32_t` / `uint64_t` and reads the samples back as `signed_value_type`) -/
+
+/-- the arithmetic `getNoise` executes in a flagged cell — cell value stored as `out_class`, converted to the `int64_t output`,
+incremented once per barrier reached, converted to `out_class` — is `(out_class)(val + k)` for every 8/16/32/64-bit `out_class`,
+signed or not: the driver's model `outStore b sg (decode …).out` is what the code computes. -/
+theorem outPath_eq (b : Nat) (hb : b = 8 ∨ b = 16 ∨ b = 32 ∨ b = 64) (sg : Bool) (val : Int) (k : Nat) :
+    outPath b sg val k = outStore b sg (val + k) := by
+  rcases hb with rfl | rfl | rfl | rfl <;> cases sg <;>
+    simp only [outPath, outStore, toSignedBits, Bool.false_eq_true, if_true, if_false] <;> omega
+
+/-- a sample that fits the signed type of `out_class`'s width is recovered exactly by reading the object as that signed type
+(so `decode_eq_invCDF` transfers to the stored value for every such `out_class`). -/
+theorem readOut_outStore (b : Nat) (hb : b = 8 ∨ b = 16 ∨ b = 32 ∨ b = 64) (sg : Bool) (v : Int)
+    (h : fitsOut b v v = true) : readOut b (outStore b sg v) = v := by
+  rcases hb with rfl | rfl | rfl | rfl <;> cases sg <;>
+    simp only [fitsOut, readOut, outStore, toSignedBits, Bool.and_eq_true, decide_eq_true_eq, Bool.false_eq_true,
+      if_true, if_false] at * <;> omega
+
+/-- why the width matters: a negative sample computed in 32-bit unsigned arithmetic and *then* widened to a 64-bit `out_class`
+reads back as `2^32 + v` — invisible for every `out_class` of at most 32 bits (`outPath_eq`), wrong for 64-bit ones. -/
+theorem widened_u32_sum_differs (sg : Bool) (v : Int) (hneg : v < 0) (hlo : -(2 ^ 31 : Int) ≤ v) :
+    readOut 64 (outStore 64 sg (outStore 32 false v)) = 2 ^ 32 + v := by
+  cases sg <;> simp only [readOut, outStore, toSignedBits, Bool.false_eq_true, if_true, if_false] <;> omega
+
+example : outStore 64 false (-66) = 18446744073709551550 ∧ readOut 64 18446744073709551550 = -66 ∧
+    outStore 16 false (-66) = 65470 ∧ readOut 16 65470 = -66 ∧ readOut 64 4294967230 = 4294967230 := by decide
+
 end Nfl.C10
